@@ -32,7 +32,7 @@ func init() { Register(c18{}) }
 func (c18) ID() string { return "C18" }
 func (c18) NRuns(tier string) int {
 	if tier == "thorough" {
-		return 400000
+		return 1500000
 	}
 	return 6000
 }
